@@ -6,10 +6,10 @@
                     strict mode /\ unknown tokens retained /\ re-encoding = known tokens + unknown
                     tokens, byte for byte, correctly framed
      c05_hyp      = (C05/Perm.v) for header, body and trailer in turn: where the strict decoder
-                    stops, the rest of the byte string holds only tags unknown to that part -- for
-                    a conforming message with inserted unknown tokens: every inserted token sits
-                    after the last known token and no inserted tag is congruent mod 65536 to a
-                    known one
+                    stops, the rest of the byte string holds only tags unknown to that part; true
+                    of a conforming message with unknown tokens inserted when every inserted token
+                    sits after the last known token and no inserted tag is congruent mod 65536 to a
+                    known one (checked against c05_hyp on every such case of the suite)
      msg_known    = a message object without its three _unknown strings
    The property is FALSE of the code (finding F13): see the three refutations. *)
 From Coq Require Import NArith ZArith List Bool String.
